@@ -13,10 +13,10 @@ def V(id, props, module, old, new, descr, kind="break", count=1, **kw):
     VARIANTS.append(dict(id=id, props=props, module=module, old=old, new=new, descr=descr, kind=kind, count=count, **kw))
 
 
-def VP(id, props, patch, descr, module=None, old=None, new=None, kind="break", count=1, **kw):
+def VP(id, props, patch, descr, module=None, old=None, new=None, kind=None, count=1, **kw):
     """A stored refactoring (benign/<name>/patch.diff, equivalence confirmed on the real code) as the base; with old/new an edit
     of the refactored text on top of it (the break), without: the refactoring itself (a benign twin)."""
-    VARIANTS.append(dict(id=id, props=props, patch=patch, module=module, old=old, new=new, descr=descr, kind=kind if old else "benign", count=count, **kw))
+    VARIANTS.append(dict(id=id, props=props, patch=patch, module=module, old=old, new=new, descr=descr, kind=kind or ("break" if old else "benign"), count=count, **kw))
 
 
 def V2(id, props, edits, descr, kind="break", **kw):
@@ -711,3 +711,26 @@ VP("R5-ls-reshape", ["C08", "C11"], _B % "c-1", "explicit shape normalisation by
 VP("R5-ls-reshape-no-expand", ["C08"], _B % "c-1", "2-D models no longer get the model axis", "linear_scoring", "models_means = models_means.reshape((1,) + tuple(models_means.shape))", "pass")
 VP("R5-ll-sample-rows", ["C01"], _B % "c-4", "single vector promoted by an explicit reshape helper")
 VP("R5-ll-sample-rows-column", ["C01"], _B % "c-4", "a vector becomes a column of one-feature samples", "gmm", "(1, data.shape[0])", "(data.shape[0], 1)")
+
+
+# ---- round 6: seeded changes of the fourth round as bases: the change itself (break) and its repaired twin (benign) ------------
+_S = "seeded/%s/patch.diff"
+VP("R6-snapshot-incomplete", ["C03", "C04"], _S % "C04-r4s2", "worker snapshot of the GMM drops map_alpha", kind="break")
+VP("R6-snapshot-complete", ["C03", "C04"], _S % "C04-r4s2", "worker snapshot that carries every attribute the kernels read", "gmm", "map_relevance_factor=self.map_relevance_factor)", "map_relevance_factor=self.map_relevance_factor, map_alpha=self.map_alpha)", kind="benign")
+VP("R6-ivector-copy-incomplete", ["C10", "C12"], _S % "C10-r4s2", "i-vector worker copy drops variance_floor", kind="break")
+VP("R6-ivector-copy-complete", ["C10", "C12"], _S % "C10-r4s2", "i-vector worker copy with the floor", "ivector", "update_sigma=self.update_sigma)", "update_sigma=self.update_sigma, variance_floor=self.variance_floor)", kind="benign")
+VP("R6-clusters-gt1", ["C20", "C06"], _S % "C20-r4s2", "clusters with exactly one member in a block are skipped", kind="break")
+VP("R6-clusters-gt0", ["C20", "C06"], _S % "C20-r4s2", "only empty clusters are skipped", "kmeans", "counts > 1", "counts > 0", kind="benign")
+VP("R6-forward-literal-default", ["C11"], _S % "C11-r4s2", "enroll_using_array forwards iterations=1", kind="break")
+VP("R6-forward-none-default", ["C11"], _S % "C11-r4s2", "enroll_using_array forwards iterations=None", "factor_analysis", "def enroll_using_array(self, X, iterations=1):", "def enroll_using_array(self, X, iterations=None):", kind="benign", count=2)
+VP("R6-load-setter-order", ["C17"], _S % "C17-r4s1", "load() assigns variances before the floors", kind="break")
+VP("R6-load-setter-order-ok", ["C17", "C18"], _S % "C17-r4s1", "load() assigns the floors first", "gmm", "        self.variances = new_self.variances\n        self.variance_thresholds = new_self.variance_thresholds", "        self.variance_thresholds = new_self.variance_thresholds\n        self.variances = new_self.variances", kind="benign")
+VP("R6-isinstance-int", ["C18"], _S % "C18-r4s2", "iteration limit honoured only when it is a Python int", kind="break")
+VP("R6-isinstance-integral", ["C18", "C03"], _S % "C18-r4s2", "iteration limit test accepts NumPy integers", "gmm", "isinstance(self.max_fitting_steps, int)", "isinstance(self.max_fitting_steps, (int, np.integer))", kind="benign")
+VP("R6-acc-dtype-of-means", ["C06"], _S % "C06-r4s2", "accumulator takes the dtype of the centroids", kind="break")
+VP("R6-acc-like-means-float", ["C06", "C20"], _S % "C06-r4s2", "accumulator shaped like the centroids, float", "kmeans", "np.zeros_like(means)", "np.zeros_like(means, dtype=float)", kind="benign")
+VP("R6-stats-inplace", ["C05", "C02"], _S % "C05-r4s2", "MAP M-step scales the caller's first-order statistics in place", kind="break")
+VP("R6-fast-path-ignores-z", ["C07"], _S % "C07-r4s1", "single-session fast path ignores the current offset", kind="break")
+VP("R6-lse-combine", ["C01"], _S % "C01-r4s2", "streaming log-sum-exp whose combine step does not rescale", kind="break")
+VP("R6-searchsorted-set-order", ["C14"], _S % "C14-r4s1", "binary search in the iteration order of a set", kind="break")
+VP("R6-one-pass-covariance", ["C14"], _S % "C14-r4s2", "covariance by X'X - n mu mu'", kind="break")
